@@ -193,7 +193,7 @@ func runC02(p *core.Prog, r *core.Report, tier string) {
 				if periodic {
 					rule = "C02.c"
 				}
-				mn, mx, ok := core.CountOnPaths(arm, isJobFuncCall, stop)
+				mn, mx, ok := core.CountOnPaths(arm, throughLocalClosures(isJobFuncCall), stop)
 				if !ok {
 					r.Undecide(rule, base+"|arm-"+kind+"|runs", p.Pos(st.Pos), "loop inside the arm: cannot count invocations")
 				} else {
@@ -236,12 +236,12 @@ func runC02(p *core.Prog, r *core.Report, tier string) {
 				}
 				// (h) finalise and name removal counts on exit paths
 				if !periodic || kind == "ctx" || kind == "cancel" {
-					fmn, fmx, fok := core.CountOnPaths(arm, isFinalise, stop)
+					fmn, fmx, fok := core.CountOnPaths(arm, throughLocalClosures(isFinalise), stop)
 					if fok {
 						r.Check(fmn == 1 && fmx == 1, "C02.h", base+"|arm-"+kind+"|finalised-once", p.Pos(st.Pos), "the job is finalised exactly once on every path of the "+kind+" arm",
 							fmt.Sprintf("the job is finalised %s times on paths of the %s arm (0 leaves its channels open and later requests hanging, 2 closes a closed channel and panics)", runs(fmn, fmx), kind))
 					}
-					dmn, dmx, dok := core.CountOnPaths(arm, isDeleteJobs, stop)
+					dmn, dmx, dok := core.CountOnPaths(arm, throughLocalClosures(isDeleteJobs), stop)
 					if dok {
 						wantDel := 0
 						why := "the claimer (CancelJob / RunJob) already removed the name; removing it again can delete a newer job scheduled under the same name"
@@ -278,7 +278,7 @@ func runC02(p *core.Prog, r *core.Report, tier string) {
 							return -1
 						}
 						est := guardEdges(ds, cl, activeTrue)
-						w := core.PathQuery{Fn: cl, From: firstInstr(arm), Target: isJobFuncCall, Avoid: isDeleteJobs, Edge: func(b *ssa.BasicBlock, succ int) bool {
+						w := core.PathQuery{Fn: cl, From: firstInstr(arm), Target: throughLocalClosures(isJobFuncCall), Avoid: isDeleteJobs, Edge: func(b *ssa.BasicBlock, succ int) bool {
 							if s, ok := est[b]; ok && s == succ {
 								return false
 							}
@@ -390,6 +390,22 @@ func runC02(p *core.Prog, r *core.Report, tier string) {
 				}
 			}
 		}
+		// an entry point that hands the request to another claimer (RunJobIfExists calling RunJob) claims through it
+		claimers := map[*ssa.Function]bool{}
+		for _, f := range fns {
+			if len(core.Calls(f, func(c *ssa.CallCommon) bool { return c.StaticCallee() == runJobFn })) > 0 {
+				claimers[f] = true
+			}
+		}
+		for _, f := range fns {
+			if claimers[f] {
+				continue
+			}
+			for _, ci := range core.Calls(f, func(c *ssa.CallCommon) bool { return c.StaticCallee() != nil && claimers[c.StaticCallee()] }) {
+				nClaim++
+				r.Hold("C02.d", core.FnKey(f)+"|claims-through|"+ci.Common().StaticCallee().Name(), p.Pos(ci.Pos()), "the request is handed to "+ci.Common().StaticCallee().Name()+", which claims the job")
+			}
+		}
 		r.Floor("C02.d claimers calling the run signaller", nClaim, 2)
 
 		// ---- (f) runJob ----
@@ -421,7 +437,15 @@ func runC02(p *core.Prog, r *core.Report, tier string) {
 			if len(ret.Results) == 0 || !core.MayBeNilErr(ds, runJobFn, ret.Results[len(ret.Results)-1], ret) {
 				continue
 			}
-			w := core.PathQuery{Fn: runJobFn, Target: func(in ssa.Instruction) bool { return in == ssa.Instruction(ret) }, Avoid: isSent}.Find()
+			// judged per value that can reach the return: `return err` with err merged from the refusals and nil
+			var w []ssa.Instruction
+			for _, lf := range core.FeasibleLeaves(runJobFn, ret.Results[len(ret.Results)-1], ret) {
+				if w != nil || !core.MayBeNilErr(ds, runJobFn, lf.V, lf.At) {
+					continue
+				}
+				at := lf.At
+				w = core.PathQuery{Fn: runJobFn, Target: func(in ssa.Instruction) bool { return in == at }, Avoid: isSent}.Find()
+			}
 			r.Check(w == nil, "C02.f", fmt.Sprintf("%s|success-return#%d", base, i+1), p.Pos(ret.Pos()), "success is reported only after the run signal was sent", "success can be reported without the run signal having been sent", p.WitnessText(w)...)
 		}
 	}
